@@ -80,42 +80,26 @@ Qed.
 Print Assumptions layout_keeps_attr_through_trim.
 
 (* LayoutSegment.subseg on a text segment, window start <= column < e: the emitted segments are
-   well-formed and show, column by column, exactly the columns of the window - a blank standing
-   for half of a double-width character carries that character's attribute - EXCEPT when the
-   cut character is the one at text offset 0 (see the refutation below). *)
+   well-formed and show, column by column, exactly the columns of the window; a blank standing
+   for half of a double-width character carries that character's attribute - the character at
+   text offset 0 included (apply_text_layout tests "s.offs is not None"). *)
 Theorem subseg_shows_window :
   forall text attrs sc o en start e,
     wf_pre text (SText sc o en) -> 0 <= start -> start < e -> e <= sc ->
     exists l, subseg text (SText sc o en) start e = Ok l /\ Forall (wf_seg text) l /\
-      (~ cut_at_offset_zero text o start e ->
-       flat_map (seg_cols text attrs) l = sub (seg_cols text attrs (SText sc o en)) start e).
+      flat_map (seg_cols text attrs) l = sub (seg_cols text attrs (SText sc o en)) start e.
 Proof. exact subseg_text_spec. Qed.
 Print Assumptions subseg_shows_window.
 
-(* The full statement drops the exception.  It is FALSE of the faithful model: the pad for the
-   half of the character at offset 0 is the segment (1, 0), and apply_text_layout's
-   "elif s.offs:" reads offset 0 as "no offset", so the blank carries None. *)
-Definition subseg_shows_window_full : Prop :=
-  forall text attrs sc o en start e,
-    wf_pre text (SText sc o en) -> 0 <= start -> start < e -> e <= sc ->
-    exists l, subseg text (SText sc o en) start e = Ok l /\
-      flat_map (seg_cols text attrs) l = sub (seg_cols text attrs (SText sc o en)) start e.
-
-(* witness: two double-width characters tagged 1, right-aligned clip to 3 columns cuts the
-   first one.  Replayed on the implementation: corpus/C17/offset_zero_half.json *)
-Theorem subseg_shows_window_full_refuted : ~ subseg_shows_window_full.
-Proof.
-  intro H.
-  destruct (H [Chr 3 2 false 2; Chr 3 2 false 2] [(Some 1, 2)] 4 0 2 1 4) as (l & E & C).
-  - cbn [wf_pre]. split; [lia|]. split; [lia|]. split; [lia|]. split; [unfold zlen; cbn; lia|].
-    split; [vm_compute; discriminate|].
-    vm_compute. repeat (constructor; [split; discriminate|]). constructor.
-  - lia.
-  - lia.
-  - lia.
-  - vm_compute in E. inversion E; subst. vm_compute in C. discriminate.
-Qed.
-Print Assumptions subseg_shows_window_full_refuted.
+(* regression for a repaired defect: two double-width characters tagged 1, right-aligned clip
+   to 3 columns cuts the first one at text offset 0: its blank keeps attribute 1; and the
+   1-column window at the start of a text whose first character is double-width *)
+Example offset_zero_half :
+  let text := [Chr 3 2 false 2; Chr 3 2 false 2] in
+  (apply_text_layout false text [(Some 1, 2)] [[SPad (-1) None; SText 4 0 2]] 3,
+   apply_text_layout false text [(Some 1, 2)] [[SText 4 0 2]] 1)
+  = (Ok [[(Some 1, 4)]], Ok [[(Some 1, 1)]]).
+Proof. vm_compute. reflexivity. Qed.
 
 (* a well-formed layout never raises ValueError out of the segment loop *)
 Theorem layout_wellformed_no_error :
